@@ -251,9 +251,72 @@ func runC06(c *core.Ctx) {
 	nStatic, _ := c06Counts(c.Tier)
 	if c.Index < nStatic {
 		c06Static(c)
+	} else if (c.Index-nStatic)%150 == 7 {
+		c06ClockProbe(c)
 	} else {
 		c06Realtime(c)
 	}
+}
+
+// c06ClockProbe: the wall clock is neither bytes nor options. A message without header timestamp whose NYCT trips have first
+// stop times a few seconds around "now" is parsed four times, 1.3 s apart, under the configurations that compare times:
+// every parse must give the same result. (The pauses are an injected delay that lets the clock pass the trips' times; the
+// verdict is the equality of the four results, not a duration.)
+func c06ClockProbe(c *core.Ctx) {
+	now := time.Now().Unix()
+	m := &gtfsrt.FeedMessage{Header: &gtfsrt.FeedHeader{GtfsRealtimeVersion: rgen.S("1.0")}}
+	if c.Index%2 == 0 {
+		m.Header.Timestamp = rgen.U64(0) // explicitly zero
+	}
+	for k, dt := range []int64{-3, 1, 2, 3, 4, 3600, -86400} {
+		d := &gtfsrt.TripDescriptor{TripId: rgen.S(fmt.Sprintf("%06d_A..N%02d", 30000+k*100, k)), RouteId: rgen.S("A"), StartDate: rgen.S("20231114")}
+		c16SetNyct(d, core.Pick(c.R, []string{"false", "absent", "false"}), "NORTH", "")
+		u := &gtfsrt.TripUpdate_StopTimeUpdate{StopId: rgen.S("A01N")}
+		if k%2 == 0 {
+			u.Departure = &gtfsrt.TripUpdate_StopTimeEvent{Time: rgen.I64(now + dt)}
+		} else {
+			u.Arrival = &gtfsrt.TripUpdate_StopTimeEvent{Time: rgen.I64(now + dt)}
+		}
+		m.Entity = append(m.Entity, &gtfsrt.FeedEntity{Id: rgen.S(fmt.Sprintf("clk%d", k)), TripUpdate: &gtfsrt.TripUpdate{Trip: d, StopTimeUpdate: []*gtfsrt.TripUpdate_StopTimeUpdate{u}}})
+	}
+	// an alert whose active period straddles now, and a vehicle position reported "now"
+	m.Entity = append(m.Entity, &gtfsrt.FeedEntity{Id: rgen.S("clk-alert"), Alert: &gtfsrt.Alert{ActivePeriod: []*gtfsrt.TimeRange{{Start: rgen.U64(uint64(now - 2)), End: rgen.U64(uint64(now + 2))}}, InformedEntity: []*gtfsrt.EntitySelector{{RouteId: rgen.S("A")}}}})
+	m.Entity = append(m.Entity, &gtfsrt.FeedEntity{Id: rgen.S("clk-veh"), Vehicle: &gtfsrt.VehiclePosition{Vehicle: &gtfsrt.VehicleDescriptor{Id: rgen.S("v1")}, Timestamp: rgen.U64(uint64(now + 2))}})
+	b := rgen.Marshal(m)
+	configs := allExtConfigs()
+	var first []string
+	for round := 0; round < 4; round++ {
+		if round > 0 {
+			time.Sleep(1300 * time.Millisecond)
+		}
+		for ci, cfg := range configs {
+			if ci >= 8 && ci%5 != 0 {
+				continue
+			}
+			rt, err := gtfs.ParseRealtime(b, &gtfs.ParseRealtimeOptions{Extension: cfg.mk()})
+			c.Eval(1)
+			d := rtDump(rt, err).ord
+			if round == 0 {
+				first = append(first, d)
+				continue
+			}
+			k := len(first)
+			_ = k
+			idx := 0
+			for cj := 0; cj <= ci; cj++ {
+				if !(cj >= 8 && cj%5 != 0) {
+					idx++
+				}
+			}
+			c.Cmp(1)
+			if path, desc, differ := diffPath(first[idx-1], d); differ {
+				c.Violationf("C06|result-depends-on-the-clock|"+strings.SplitN(cfg.name, "{", 2)[0]+"|"+path, map[string]any{"configuration": cfg.name, "message": prototextOf(m), "seconds_after_first_parse": float64(round) * 1.3},
+					"the same bytes parsed with the same options %.1f s later give a different result (%s): %s", float64(round)*1.3, cfg.name, desc)
+			}
+		}
+	}
+	c.Feature("clock-probe")
+	c.Shape("clock-probe")
 }
 
 func c06Static(c *core.Ctx) {
@@ -464,6 +527,17 @@ func c06Realtime(c *core.Ctx) {
 		}
 		// history with one reused options (and extension) object
 		shared := fresh()
+		sharedBefore := *shared
+		defer func(cfgName string) {
+			// "equivalent options": a parse must leave the caller's options value as it found it, or the next parse is no longer
+			// given the options the caller wrote
+			c.Cmp(1)
+			extChanged := fmt.Sprintf("%T", shared.Extension) != fmt.Sprintf("%T", sharedBefore.Extension)
+			if shared.Timezone != sharedBefore.Timezone || extChanged {
+				c.Violationf("C06|options-value-modified|"+strings.SplitN(cfgName, "{", 2)[0], map[string]any{"configuration": cfgName, "timezone_before": fmt.Sprint(sharedBefore.Timezone), "timezone_after": fmt.Sprint(shared.Timezone)},
+					"ParseRealtime changed the caller's options value (%s): Timezone %v -> %v, Extension changed: %v", cfgName, sharedBefore.Timezone, shared.Timezone, extChanged)
+			}
+		}(cfg.name)
 		hist := []int{0, 1, 0, 2, 0, 1, 2, 0}
 		for k, i := range hist {
 			rt, err := gtfs.ParseRealtime(bufs[i].B, shared)
